@@ -207,6 +207,36 @@ def ws(chk, fx):
     f = first_inst(fx, P + "skip_whitespace")
     cn = Canon(f)
     calls = [n for n in walk(f.body) if A.is_call(n, q="ctpg::utils::find_char")]
+    if not calls:
+        # the other way to look a byte up in a table: a string_view over the table and find(). What matters is the same:
+        # which bytes the view contains — a view built with the array's full extent contains the terminating NUL
+        finds = [n for n in walk(f.body) if n.get("k") == "CXXMemberCallExpr" and (n.get("callee") or {}).get("n") == "find"
+                 and "string_view" in cn.c(n)]
+        if len(finds) == 1:
+            t = cn.c(finds[0])
+            views = re.findall(r"string_view\{(?:const )?char\[(\d+)\]\{([\d, ]*)\}, ([^{}]*(?:\{[\d, ]*\})?[^{}]*?)\}", t)
+            if len(views) == 2:
+                bad = False
+                for ext, elems, length in views:
+                    tab = [int(x) for x in elems.split(",")]
+                    n_in_view = None
+                    if re.fullmatch(r"\d+", length.strip()):
+                        n_in_view = int(length)
+                    elif length.strip().startswith("size(") or length.strip().startswith("sizeof"):
+                        n_in_view = int(ext)
+                    elif re.fullmatch(r"\(size\(.*\) - 1\)", length.strip()):
+                        n_in_view = int(ext) - 1
+                    if n_in_view is None:
+                        chk.incomplete("skip_whitespace: length of the whitespace view not recognised (%s)" % length[:60])
+                    if 0 in tab[:n_in_view]:
+                        bad = True
+                        chk.violation("WS", A.site(f, finds[0]), "WS:terminator:view",
+                                      "the whitespace table is searched through a string_view of %d bytes over %s: the view "
+                                      "contains the terminating NUL, so a NUL byte of the input is skipped as white space "
+                                      "instead of being reported" % (n_in_view, tab))
+                if bad:
+                    return
+        chk.incomplete("skip_whitespace: expected one find_char call")
     if len(calls) != 1:
         chk.incomplete("skip_whitespace: expected one find_char call")
     txt = cn.c(A.call_args(calls[0])[1])
